@@ -1171,3 +1171,58 @@ func TestOptionalMissMatrix(t *testing.T) {
 	}
 	P.SetExtra("optional_miss_matrix_cases", n)
 }
+
+// TestAlgebraSpines: expressions two levels deeper than the exhaustive enumeration reaches, along one spine:
+// u3( op3( u2( op2( u1( op1(x, y) ), z ) ), w ) ) with x, y, z, w over the four leaf kinds (true, false, required data
+// missing, optional data missing), op over and / or on either side, u over nothing / not. What a connective does with a
+// child that has no data depends on where it stands below negations; every such expression gets the same outcome with
+// its operands reversed, and Match implies PartialMatch.
+func TestAlgebraSpines(t *testing.T) {
+	kinds := []string{"T", "F", "N", "O"}
+	wrap := func(u int, s pol.Stmt) pol.Stmt {
+		if u == 1 {
+			return pol.Stmt{Op: "not", Sub: []pol.Stmt{s}}
+		}
+		return s
+	}
+	join := func(op string, side int, a, b pol.Stmt) pol.Stmt {
+		if side == 1 {
+			a, b = b, a
+		}
+		return pol.Stmt{Op: op, Sub: []pol.Stmt{a, b}}
+	}
+	n := 0
+	for _, op1 := range []string{"and", "or"} {
+		for _, x := range kinds {
+			for _, y := range kinds {
+				core := pol.Stmt{Op: op1, Sub: []pol.Stmt{leaf(x), leaf(y)}}
+				for u1 := 0; u1 < 2; u1++ {
+					for _, op2 := range []string{"and", "or"} {
+						for _, z := range kinds {
+							for side2 := 0; side2 < 2; side2++ {
+								for u2 := 0; u2 < 2; u2++ {
+									e2 := wrap(u2, join(op2, side2, wrap(u1, core), leaf(z)))
+									algProp.One(t, AlgCase{Expr: e2})
+									n++
+									if !h.Thorough() && (side2 == 1 || z == "T") {
+										continue // quick: the third level for part of the second
+									}
+									for _, op3 := range []string{"and", "or"} {
+										for _, w := range []string{"F", "N", "O"} {
+											for u3 := 0; u3 < 2; u3++ {
+												algProp.One(t, AlgCase{Expr: wrap(u3, join(op3, 0, e2, leaf(w)))})
+												n++
+											}
+										}
+									}
+								}
+							}
+						}
+					}
+				}
+			}
+		}
+	}
+	P.AddDistinct(n)
+	P.SetExtra("algebra_spine_expressions", n)
+}
